@@ -110,6 +110,14 @@ func init() {
 					c.run("nmf", "NXM_NX_REG0", "u64", v, s, w)
 				}
 				c.run("regcmp", c.rng.Intn(16), c.rng.Intn(1<<uint(min(w, 31))), s, w)
+				// in-place form on reg0, every window: one stray bit below and one above the window
+				if s > 0 {
+					c.run("nmf", "NXM_NX_REG0", "u64", fmt.Sprint((uint64(1)<<uint(s))|uint64(1)<<uint(c.rng.Intn(s))), s, w, 0)
+				}
+				if s+w < 32 {
+					c.run("nmf", "NXM_NX_REG0", "u64", fmt.Sprint((uint64(1)<<uint(s))|uint64(1)<<uint(s+w)), s, w, 0)
+				}
+				c.run("nmf", "NXM_NX_REG0", "u64", fmt.Sprint(uint64(1)<<uint(s+w-1)), s, w, 0)
 				c.run("nmf", "NXM_NX_REG"+fmt.Sprint(c.rng.Intn(16)), "u32", vals(w)[3], s, w)
 			}
 		}
@@ -146,6 +154,16 @@ func init() {
 				inplace.SetString(vs[3], 10)
 				inplace.Lsh(inplace, uint(s))
 				c.run("nmf", n, "big", inplace.String(), s, w, 0)
+				// value in place but with a bit below / above its window: not representable
+				if s > 0 {
+					low := new(big.Int).SetBit(new(big.Int).Set(inplace), c.rng.Intn(s), 1)
+					c.run("nmf", n, "big", low.String(), s, w, 0)
+					c.run("nmf", n, "big", new(big.Int).Lsh(big.NewInt(1), uint(s-1)).String(), s, w, 0)
+				}
+				if s+w < bits {
+					high := new(big.Int).SetBit(new(big.Int).Set(inplace), s+w+c.rng.Intn(bits-s-w), 1)
+					c.run("nmf", n, "big", high.String(), s, w, 2)
+				}
 				c.run("nmf", n, "big", vs[3], s) // one-argument form
 			}
 			// not representable: too wide, window beyond the field, value wider than the window, negative, > 3 args
